@@ -54,6 +54,9 @@ func (p *plane) resync(subs []*subscriber) {
 	}
 }
 
+// names shared by the subscribers of a case; "guest" is also one of the shipped default policies
+var planPool = []string{"verif-plan-a", "verif-plan-b", "guest"}
+
 // mutateInPlace edits the plan the way a caller does before re-submitting the object it kept: the new
 // numbers go into the snapshot fields of s (submit copies them into the SAME object).  Returns the kind.
 func mutateInPlace(rt *rapid.T, s *subscriber, label string) string {
@@ -136,6 +139,13 @@ func TestPropPolicy(t *testing.T) {
 	vstat.Checks(1200, 30000)
 	rapid.Check(t, func(rt *rapid.T) {
 		subs := distinctSubs(rt, rapid.IntRange(1, 3).Draw(rt, "nsubs"))
+		for i, s := range subs {
+			if s.ViaName && chance(rt, fmt.Sprintf("pool%d", i), 2, 3) {
+				// named plans come from the shared pool: a later subscriber's definition of the same name
+				// replaces the earlier one (the earlier subscriber keeps what was current at its own Set)
+				s.planName, s.planDefine = pick(rt, fmt.Sprintf("pool%d.name", i), planPool[:2]...), defineAdd
+			}
+		}
 		flows, abandon := p.setup(rt, subs, true)
 		if abandon {
 			return
@@ -246,6 +256,7 @@ func TestPropPolicy(t *testing.T) {
 			}
 			return false
 		}
+		lastEvent := ""
 		// apply: one Set call for the snapshot values of s; closes the old flows, opens the new contract
 		apply := func(s *subscriber, how int, event string, wb bool) bool {
 			if wb {
@@ -254,6 +265,12 @@ func TestPropPolicy(t *testing.T) {
 			if err := p.submit(s, how); err != nil {
 				rt.Fatalf("harness: manager rejected a valid policy %s: %v", s, err)
 			}
+			if s.lastRedefined {
+				event = evRedefined
+				cls = append(cls, "op:policy-redefined")
+				hist = append(hist, fmt.Sprintf("(policy %q redefined since last use; now %s)", s.planName, s))
+			}
+			lastEvent = event
 			p.resync(subs)
 			wasRemoved := removed[s]
 			removed[s] = false
@@ -278,7 +295,8 @@ func TestPropPolicy(t *testing.T) {
 		}
 		// setOp draws how the caller delivers a (new or unchanged) plan for s and performs the call
 		setOp := func(s *subscriber, label string) bool {
-			how := pick(rt, label+".how", "in-place", "in-place", "identical", "fresh-new", "fresh-identical", "by-name-new", "by-name-identical")
+			how := pick(rt, label+".how", "in-place", "in-place", "identical", "fresh-new", "fresh-identical", "by-name-new", "by-name-identical",
+				"by-name-redefine", "by-name-redefine", "by-name-redefine", "by-name-current", "by-name-current", "by-name-bulk-defaults")
 			event, via := evFreshUpdate, submitFresh
 			switch how {
 			case "in-place":
@@ -296,9 +314,48 @@ func TestPropPolicy(t *testing.T) {
 				ns := genSubscriber(rt, label+".new")
 				s.Down, s.Up, s.Burst, s.Prio = ns.Down, ns.Up, ns.Burst, ns.Prio
 				if how == "by-name-new" {
-					via = submitByName
+					via, s.planName = submitByName, ""
 				}
 				cls = append(cls, "op:update")
+			case "by-name-redefine": // a name from the shared pool gets new numbers (AddPolicy replaces, or Remove + Add), then is applied
+				name := pick(rt, label+".name", planPool...)
+				var usedNames []string
+				for _, n := range planPool {
+					if _, ok := p.usedDef[n]; ok {
+						usedNames = append(usedNames, n)
+					}
+				}
+				if len(usedNames) > 0 && chance(rt, label+".used", 3, 4) {
+					name = pick(rt, label+".usedName", usedNames...) // a name some subscriber already resolved
+				}
+				kind := "first-definition"
+				if cur, ok := p.defs[name]; ok {
+					s.Down, s.Up, s.Burst, s.Prio = cur.Down, cur.Up, cur.Burst, cur.Prio
+					kind = mutateInPlace(rt, s, label+".redef")
+				} else {
+					ns := genSubscriber(rt, label+".new")
+					s.Down, s.Up, s.Burst, s.Prio = ns.Down, ns.Up, ns.Burst, ns.Prio
+				}
+				s.planName, s.planDefine, via = name, defineAdd, submitByName
+				if chance(rt, label+".removeAdd", 1, 3) {
+					s.planDefine = defineRemoveAdd
+					kind += ",remove+add"
+				}
+				how += ":" + name + ":" + kind
+				cls = append(cls, "op:update")
+			case "by-name-current": // a pool name as it is defined now (possibly redefined by another subscriber's event)
+				var names []string
+				for _, n := range planPool {
+					if _, ok := p.defs[n]; ok {
+						names = append(names, n)
+					}
+				}
+				s.planName, s.planDefine, via = pick(rt, label+".name", names...), defineNone, submitByName
+				how += ":" + s.planName
+				cls = append(cls, "op:update")
+			case "by-name-bulk-defaults": // the shipped policies are reloaded over custom definitions, then one of them is applied
+				s.planName, s.planDefine, via = "guest", defineBulkDefaults, submitByName
+				cls = append(cls, "op:update", "op:bulk-defaults")
 			case "fresh-identical":
 				event = evIdentical
 				cls = append(cls, "op:identical-resubmit")
@@ -314,7 +371,7 @@ func TestPropPolicy(t *testing.T) {
 			if apply(s, via, event, true) {
 				return true
 			}
-			if readback(s, event) {
+			if readback(s, lastEvent) {
 				return true
 			}
 			return probe(s)
